@@ -330,4 +330,20 @@ theorem fromBase64_ok (inp : List Nat) (hb : ∀ b ∈ inp, b < 256) : ∃ r, fr
       obtain ⟨j', out'⟩ := p
       exact ⟨out'.take j', by simp only [if_pos (hbound j' out' rfl)]⟩
 
+
+/-! ### helpers of `hex_injective_and_concatenates` -/
+
+theorem upperHex_append (a b : List Nat) : Spec.upperHex (a ++ b) = Spec.upperHex a ++ Spec.upperHex b := by
+  induction a with
+  | nil => rfl
+  | cons x r ih => simp only [List.cons_append, Spec.upperHex, ih]
+
+theorem map_toNat_inj : ∀ (a b : List UInt8), a.map UInt8.toNat = b.map UInt8.toNat → a = b
+  | [], [], _ => rfl
+  | [], _ :: _, h => by simp at h
+  | _ :: _, [], h => by simp at h
+  | x :: a, y :: b, h => by
+    simp only [List.map_cons, List.cons.injEq] at h
+    rw [UInt8.toNat_inj.mp h.1, map_toNat_inj a b h.2]
+
 end Nstd.Codec
